@@ -201,6 +201,10 @@ def build(template_path, repo, variant="strict", inline=None):
                 res.lost.append(str(e))
             i += 1
             continue
+        if d.startswith("rlimit "):
+            # read by the driver (SMT resource limit of this unit)
+            i += 1
+            continue
         if not d.startswith("extract "):
             raise ValueError("%s:%d: unknown directive %r" % (origin[1], origin[2], s))
         _, relfile, selector = d.split(None, 2)
